@@ -56,6 +56,8 @@ type View struct {
 	// Odd: pods with the set's name as parent but a non-canonical ordinal (web-01, web-99999999999)
 	Odd    map[string]*corev1.Pod
 	ByName map[string]*corev1.Pod
+
+	updName *string
 }
 
 func parseSlots(set *asv1.StatefulSet) map[int]bool {
@@ -189,7 +191,30 @@ func NewView(rec *sim.Record) *View {
 
 func podRev(p *corev1.Pod) string { return p.Labels["controller-revision-hash"] }
 
+// UpToDate: the pod carries the update revision. "The update revision" is the stored revision
+// the reconcile resolved for the cached template (the name it wrote to the status, else the cached
+// status' name) as long as that revision really records the cached template; several stored revisions
+// may hold identical data (an adopted orphan next to an own one), and then only the resolved one counts.
+// If the status names no revision recording the template (a reconcile that failed before resolving
+// it), any revision recording the template counts.
 func (v *View) UpToDate(p *corev1.Pod) bool {
+	if v.updName == nil {
+		name := v.Set.Status.UpdateRevision
+		for _, a := range v.Rec.Actions {
+			if a.Resource == "statefulsets" && a.Subresource == "status" && a.Verb == "update" {
+				if o, ok := a.Obj.(*asv1.StatefulSet); ok {
+					name = o.Status.UpdateRevision
+				}
+			}
+		}
+		if img, ok := v.RevImage[name]; !ok || img != v.SetImage {
+			name = ""
+		}
+		v.updName = &name
+	}
+	if *v.updName != "" {
+		return podRev(p) == *v.updName
+	}
 	img, ok := v.RevImage[podRev(p)]
 	return ok && img == v.SetImage
 }
